@@ -34,9 +34,12 @@ static uint64_t g_rem, g_prefix;
 __attribute__((noinline)) static void decode_check(BufStream<CAPB>& s, int o, uint64_t pre, uint64_t x)
 {
     BitStreamReader<BufStream<CAPB>> r(s);
-    const uint64_t got_pre = r.Read(o);                 // (calls first, then combine: no short-circuit around the side effects)
-    const uint64_t got_x = GolombRiceDecode(r, GP);
-    g_dec_ok = g_dec_ok && got_pre == pre && got_x == x;
+    uint64_t got_pre = 0, got_x = 0; bool threw = false;
+    try {
+        got_pre = r.Read(o);                              // (calls first, then combine: no short-circuit around the side effects)
+        got_x = GolombRiceDecode(r, GP);
+    } catch (const std::ios_base::failure&) { threw = true; }   // running off the end of the encoded bytes is a decoding failure, not a harness abort
+    g_dec_ok = g_dec_ok && !threw && got_pre == pre && got_x == x;
     g_cons_ok = g_cons_ok && s.rpos == s.wpos;
 }
 
@@ -46,12 +49,12 @@ __attribute__((flatten, noinline)) static void pass()
     const uint64_t x = (Q << GP) | (g_rem & ((1ULL << GP) - 1));
     const uint64_t pre = g_prefix & ((1ULL << O) - 1);
     BufStream<CAPB> s;
-    {
+    try {
         BitStreamWriter<BufStream<CAPB>> w(s);
         w.Write(pre, O);
         GolombRiceEncode(w, GP, x);
         w.Flush();
-    }
+    } catch (const std::ios_base::failure&) { g_len_ok = false; }   // more bytes written than the reference length + slack
     // reference encoding, written from BIP158: quotient q = x >> P in unary (q ones then a zero), then the low P bits of x, most significant bit first
     size_t pos = 0;
     for (int b = O - 1; b >= 0; b--) { g_bits_ok = g_bits_ok && ref_bit(s.buf, pos) == (((pre >> b) & 1) != 0); pos++; }
